@@ -94,6 +94,9 @@ func contractTags(fc *FuncContract) map[string]bool {
 	for _, ca := range fc.CallAsserts {
 		add([]*Clause{ca.Clause})
 	}
+	for _, ca := range fc.CallbackInvs {
+		add([]*Clause{ca.Clause})
+	}
 	add(fc.AtReturn)
 	if s := fc.Opts["serves"]; s != "" {
 		for _, t := range strings.FieldsFunc(s, func(r rune) bool { return r == ',' || r == ' ' }) {
@@ -131,6 +134,7 @@ type checkReport struct {
 }
 
 func runCheck(prop, tier string, seed int) int {
+	retried := 0
 	t0 := time.Now()
 	timeout := 10
 	if tier == "thorough" {
@@ -296,12 +300,41 @@ func runCheck(prop, tier string, seed int) int {
 		rep.undecided = append(rep.undecided, "no function under contract serves "+prop)
 	}
 	dischargeAll(all, timeout, seed, true)
+	// An obligation the solvers gave up on (timeout / unknown — never a model) gets one more, longer and less
+	// contended attempt before it is reported: on a loaded machine a 100 ms proof can miss a 10 s budget.
+	// Obligations of recorded findings are expected to stay open and are not retried.
+	{
+		kn := loadKnown()
+		var again []*Obligation
+		for _, o := range all {
+			if o.Result != "timeout" && o.Result != "unknown" {
+				continue
+			}
+			isKnown := false
+			for i := range kn {
+				if kn[i].State == "known" && kn[i].Property == prop && kn[i].Obligation != "" && strings.Contains(o.Name, kn[i].Obligation) {
+					isKnown = true
+				}
+			}
+			if !isKnown {
+				again = append(again, o)
+			}
+		}
+		if len(again) > 0 && len(again) <= 40 {
+			retried = len(again)
+			longer := timeout * 4
+			if longer > 90 {
+				longer = 90
+			}
+			for _, o := range again {
+				discharge(o, longer, seed, true)
+			}
+		}
+	}
 	// vacuity: `false` must not be provable at function exit
 	dischargeAll(vacuity, 5, seed, false)
-	for _, o := range vacuity {
-		if o.Result == "unsat" {
-			rep.undecided = append(rep.undecided, "vacuous contract: `false` is provable at "+o.Name)
-		}
+	for _, o := range vacuousCovers(vacuity) {
+		rep.undecided = append(rep.undecided, "vacuous contract: `false` is provable at "+o.Name)
 	}
 	// trusted base
 	tset := map[string]bool{}
@@ -441,6 +474,7 @@ func runCheck(prop, tier string, seed int) int {
 		"obligations":              len(all) - knownObls,
 		"discharged":               discharged,
 		"refuted_known_finding_obligations": knownObls,
+		"obligations_retried_with_longer_timeout": retried,
 		"checker_cmd":              fmt.Sprintf("bin/verif check %s --tier %s", prop, tier),
 		"trusted_base":             trusted,
 		"functions_under_contract": funcNames,
